@@ -150,6 +150,66 @@ def rule_comparison_pair(A, R, rule):
     R.floor(rule, "call sites of the configured comparison with known operands", n4, 2)
 
 
+def rule_failure_cancels_considers(A, R, rule):
+    """a handler of a signal that handlers themselves send (so it runs in later rounds, with signals pending) which passes an
+    upstream failure on to a direct downstream cancels the consider signals pending for that downstream: both the ones in the
+    batch being drained (the ignore set) and the ones already emitted for the next round (selective removal from the local list)"""
+    from rules_more import kinds
+    K = kinds(A)
+    H = A.handler_runs()
+    internal = set()
+    for (k, s), run in H.items():
+        for v in run.by_kind("push_signal"):
+            if v["container"] != "queue":
+                internal |= set(v["kinds"])
+    seen = {}
+    for (k, s), run in H.items():
+        if k not in internal:
+            continue      # a signal only events queue is alone in the first batch: nothing can be pending
+        for v in run.by_kind("push_signal"):
+            if v["container"] == "queue" or set(v["kinds"]) != {K["upfail"]} or nbr_parent(v["key"])[1] != "Outgoing":
+                continue
+            ign = [x for x in run.by_kind("set_op") if x["op"] == "insert" and x["target"][0] == "local" and x["elem"][0] == "key"
+                   and x["elem"][1] == v["key"][0] and connected(A, v, x)]
+            ign += [x for x in run.by_kind("mark") if x["key"][0] == v["key"][0] and x["value"][0] == "fin"
+                    and set(x["value"][2]) == {(1,)} and connected(A, v, x)]
+            rem = [x for x in run.by_kind("retain") if (not x.get("keys") or v["key"][0] in x["keys"]) and connected(A, v, x)]
+            kk = (v["fn"], v["bb"], k)
+            ok = bool(ign) and bool(rem)
+            why = []
+            if not ign:
+                why.append("the downstream is not entered into the set of jobs whose consider signals are to be ignored")
+            if not rem:
+                why.append("consider signals already emitted for the next round are not removed from the pending list")
+            prev = seen.get(kk)
+            seen[kk] = (ok and (prev[0] if prev else True), why or (prev[1] if prev else []), A.site(v), v["fn"])
+    for (fn, bb, k), (ok, why, site, fn_) in sorted(seen.items()):
+        R.ob(rule, "%s | %s handler passes the failure on to a direct downstream | consider signals pending for it are cancelled"
+             % (short(fn_), A.kname(k)), ok, detail="; ".join(why), site=site)
+    R.floor(rule, "sites that pass an upstream failure on in a later round", len(seen), 1)
+
+
+def rule_strategy_asked_by_job_id(A, R, rule):
+    """the strategy answers questions about jobs ('is the output there?'): every textual argument of such a question is the id of
+    a job of the current graph as a whole (or the id the caller passed to look the job up) - not a piece of an id, nor a name
+    taken from the recorded history (the strategy keys its answers by job id; a multi-output id is split by the strategy itself)"""
+    n = 0
+    seen = set()
+    for (entry, label), run in all_runs(A):
+        for v in run.by_kind("strategy_call"):
+            if v["method"] == "is_history_altered" or (v["fn"], v["bb"]) in seen:
+                continue
+            strs = [a for a in v["args"] if a is not None and a[0] == "str"]
+            if not strs:
+                continue
+            seen.add((v["fn"], v["bb"]))
+            n += 1
+            bad = [sorted(set(p_[0] for p_ in a[1])) for a in strs if not a[1] or any(p_[0] not in ("jobid", "param") for p_ in a[1])]
+            R.ob(rule, "%s | strategy.%s is asked about a job by its whole id" % (short(v["fn"]), v["method"]), not bad,
+                 detail="the argument is %s, not the id of a job of the current graph" % (bad[0] if bad else ""), site=A.site(v))
+    R.floor(rule, "questions to the strategy that name a job", n, 1)
+
+
 def dependency_checks(A):
     """functions that decide whether a dependency is invalidated: Result<bool> methods that call the configured comparison"""
     ei = [b for b in A.evaluator_methods() if b.locals[0]["s"].startswith("std::result::Result<bool")]
@@ -1303,6 +1363,10 @@ def check_C06(A, R, tier):
                  bool(scans), detail="two consider signals for one job can be pending in the same batch: the first makes the job ready, "
                                      "the second repeats the ready signal, which the handler rejects with an internal error", site=A.site(v))
     R.floor("R6.6", "sites that queue a consider signal", n, 1)
+    # ... and a failure that is passed on to a downstream makes the consider signals pending for it obsolete: handled after the
+    # failure reached its upstream they would validate the job against an upstream that has no output (internal error, and the
+    # rest of the batch - the failure itself - is lost)
+    rule_failure_cancels_considers(A, R, "R6.6")
     # R6.7 the history can be assembled for every way a job without output can end
     rule_history_after_any_outcome(A, R, "R6.7")
     # R6.9 (= R12.p) startup pruning is complete: a half-pruned chain of unused Ephemerals is later validated against records of
